@@ -73,6 +73,10 @@ func parseSb(line string) (c caseCfg, ok bool) {
 	return c, true
 }
 
+// the names of an op line as the monitor reads them: the token "@R" is the virtual root
+func (c caseCfg) name(s string) (string, bool)       { return unhxR(s, c.vroot[1:]) }
+func (c caseCfg) nameList(s string) ([]string, bool) { return unhxListR(s, c.vroot[1:]) }
+
 // targets returns the absolute (virtual) paths the externally supplied name(s) of an op denote, and the raw names.
 func targets(c caseCfg, f []string) (paths []string, names []string) {
 	abs := func(p string) string {
@@ -83,31 +87,35 @@ func targets(c caseCfg, f []string) (paths []string, names []string) {
 	}
 	switch f[0] {
 	case "put", "get", "gmt", "del", "qry":
-		if k, ok := unhx(f[1]); ok {
+		if k, ok := c.name(f[1]); ok {
 			return []string{c.vroot + "/" + k}, []string{k}
 		}
 	case "ens":
-		if p, ok := unhx(f[2]); ok {
+		if p, ok := c.name(f[2]); ok {
 			return []string{abs(p)}, []string{p}
 		}
 	case "enr":
-		if p, ok := unhx(f[2]); ok {
+		if p, ok := c.name(f[2]); ok {
 			return []string{c.vroot + "/" + p}, []string{p}
 		}
 	case "end":
-		if xs, ok := unhxList(f[2]); ok {
+		if xs, ok := c.nameList(f[2]); ok {
 			return []string{c.vroot + "/" + strings.Join(xs, "/")}, []string{strings.Join(xs, "/")}
 		}
 	case "unz":
-		if xs, ok := unhxList(f[1]); ok {
-			for _, n := range xs {
-				paths = append(paths, c.vroot+"/tmp/"+path_base(unzDest)+"/"+n)
+		if xs, ok := unhxEntriesR(f[1], c.vroot[1:]); ok {
+			for _, en := range xs {
+				paths = append(paths, c.vroot+"/tmp/"+path_base(unzDest)+"/"+en.name)
+				n := en.name
+				if en.dir && !strings.HasSuffix(n, "/") {
+					n += "/" // (for the monitor a directory entry is a name with a trailing separator)
+				}
 				names = append(names, n)
 			}
 			return
 		}
 	case "scan":
-		if p, ok := unhx(f[1]); ok && p != "" {
+		if p, ok := c.name(f[1]); ok && p != "" {
 			return []string{abs(p)}, []string{p}
 		}
 	}
@@ -124,18 +132,18 @@ func targetsDsh(c caseCfg, f []string, nodePath map[string]string) (paths []stri
 	case f[0] == "hens" && len(f) == 2:
 		return []string{np}, []string{np}
 	case f[0] == "hena" && len(f) == 3:
-		if p, ok := unhx(f[2]); ok {
+		if p, ok := c.name(f[2]); ok {
 			if strings.HasPrefix(p, "/") {
 				return []string{p}, []string{p}
 			}
 			return []string{c.vcwd + "/" + p}, []string{p}
 		}
 	case f[0] == "henr" && len(f) == 3:
-		if p, ok := unhx(f[2]); ok {
+		if p, ok := c.name(f[2]); ok {
 			return []string{np + "/" + p}, []string{p}
 		}
 	case f[0] == "hend" && len(f) == 3:
-		if xs, ok := unhxList(f[2]); ok {
+		if xs, ok := c.nameList(f[2]); ok {
 			return []string{np + "/" + strings.Join(xs, "/")}, []string{strings.Join(xs, "/")}
 		}
 	}
@@ -218,7 +226,7 @@ func monitor(c hxlib.Case, outs []string) (vs []hxlib.Violation) {
 		}
 		if cfg.comp == "dsh" && f[0] == "chd" && len(f) == 4 {
 			if of := strings.Fields(o); len(of) >= 2 && of[0] == "child" {
-				if name, ok := unhx(f[2]); ok {
+				if name, ok := cfg.name(f[2]); ok {
 					if _, known := nodePath[of[1]]; !known {
 						nodePath[of[1]] = nodePath[f[1]] + "/" + name
 					}
@@ -264,14 +272,24 @@ func monitor(c hxlib.Case, outs []string) (vs []hxlib.Violation) {
 		if escapes && !strings.HasPrefix(dec, "rej ") {
 			demand := true
 			if f[0] == "unz" {
-				// entries are processed in order: only demand the rejection if everything before the first
-				// escaping entry is a plain, distinct file name (so nothing else can have stopped the unpacking)
-				seen := map[string]bool{}
+				// entries are processed in order: only demand the rejection if everything before the first escaping
+				// entry is an orderly archive — distinct names made of plain segments, every entry directly in the unpack
+				// directory or in a directory an earlier entry created — so nothing else can have stopped the unpacking
+				seen, dirs := map[string]bool{}, map[string]bool{"": true}
 				for _, n := range names[:firstEsc] {
-					if !simpleName(n) || seen[n] {
+					isDir := strings.HasSuffix(n, "/")
+					n = strings.TrimSuffix(n, "/")
+					parent, last := "", n
+					if i := strings.LastIndex(n, "/"); i >= 0 {
+						parent, last = n[:i], n[i+1:] // (dirs only holds chains of plain segments: a parent spelled otherwise is not in it)
+					}
+					if strings.HasPrefix(n, "/") || !simpleName(last) || !dirs[parent] || seen[n] {
 						demand = false
 					}
 					seen[n] = true
+					if isDir {
+						dirs[n] = true
+					}
 				}
 			}
 			if demand {
